@@ -26,7 +26,7 @@ for generated programs are compared as a diagnostic only (SPEC-DRIFT).
 Not judged: page layout, titles, cross reference / usage lists, float and string symbols, symbols local to
 sections, bit symbols printed through DissectBit, rows of lines whose listing is suppressed.
 
-Known defects of the pinned tree (known_findings/C19.json): (1) -listradix is ignored for addresses and code of
+Defects of the pinned tree d9f49b6, repaired in /repo meanwhile (known_findings/C19.json, status fixed): (1) -listradix is ignored for addresses and code of
 the listing (hex digits in columns of the requested radix' width), proposed_fixes/C19-listradix-ignored.diff: on
 the unfixed tree a rejected listing with radix != 16 is read again with hexadecimal digits and, if TLC accepts it
 then, reported as that known finding; (2) ALIGN that needs no fill still writes a line:address entry,
@@ -194,7 +194,7 @@ def case_events(trace, files, base, radix, share_kind, debug_kind, pbytes, readi
         for (segn, fil, ln, addr) in ml:
             seg = listing.SEGNAMES.index(segn) if segn in listing.SEGNAMES else -1
             ev.append({"a": "MAPLINE", "seg": seg, "line": ln, "addr": listing.split24(addr),
-                       "at": emidx.get((seg, ln, addr), _any_of_line(em, seg, ln))})
+                       "at": emidx.get((seg, ln, addr)) or _any_of_line(em, seg, ln)})
             stats["maplines"] += 1
         for (n, sect, typ, vtxt, segn) in ms:
             if sect is None and typ == "Int" and n.upper() in vals:
@@ -210,7 +210,7 @@ def case_events(trace, files, base, radix, share_kind, debug_kind, pbytes, readi
                 stats["syms"] += 1
         for (fil, ln, addr) in nl:
             ev.append({"a": "MAPLINE", "seg": 1, "line": ln, "addr": listing.split24(addr),
-                       "at": emidx.get((1, ln, addr), _any_of_line(em, 1, ln))})
+                       "at": emidx.get((1, ln, addr)) or _any_of_line(em, 1, ln)})
             stats["maplines"] += 1
     if debug_kind == "ATMEL" and files.get(base + ".obj") is not None:
         recs, names = listing.parse_atmel(files[base + ".obj"])
@@ -426,6 +426,8 @@ def main(tier):
     # events ------------------------------------------------------------------------------------------
     cases = []
     infos = []
+    ph_ev = Phase("tokenise reports, build events")
+    ph_ev.__enter__()
     for m, res in list(zip(metas, gres)) + list(zip(cmeta, cres)):
         rep.evaluated()
         if res["rc"] != 0 or res["trace"] is None:
@@ -439,6 +441,7 @@ def main(tier):
         cases.append(ev)
         infos.append((m, res))
         rep.distinct((m["name"], m["radix"], m["share"], m["debug"]), stats["code_rows"] > 0)
+    ph_ev.__exit__(None, None, None)
     with Phase("Listing_Trace: %d runs, %d events" % (len(cases), sum(map(len, cases)))):
         bad, tr = judge(cases)
     rep.cov["states"] += tr.distinct
